@@ -26,7 +26,10 @@ Atoms == { a, b, ab, abc, bc, ac, nsa, Attr(nsa, "b"), Attr(Attr(nsa, "b"), "c")
            \* nested lambdas binding the SAME name; the outer variable is used again after the inner lambda
            Coll(Id0("cs"), "any", Lam(x, Bool("and", Coll(Attr(x, "ds"), "any", Lam(x, Cmp("eq", Attr(x, "a"), one))), Cmp("eq", Attr(x, "b"), x)))),
            Coll(Id0("cs"), "all", Lam(a, Bool("or", Coll(Attr(a, "b"), "all", Lam(a, Cmp("eq", a, b))), Cmp("eq", a, ab)))),
-           Coll(a, "any", None), Lst(<<a, ab>>), Cmp("in", a, Lst(<<b, one>>)) }
+           Coll(a, "any", None), Lst(<<a, ab>>), Cmp("in", a, Lst(<<b, one>>)),
+           \* explicit right-hand grouping of one connective (substitution keeps the shape of the tree)
+           Bool("and", Cmp("eq", a, one), Bool("and", Cmp("eq", b, one), Cmp("eq", ab, one))),
+           Bool("or", Cmp("eq", ab, b), Bool("or", Cmp("eq", a, one), Bool("or", Cmp("eq", b, one), Cmp("eq", x, one)))) }
 Expand(s) == { <<0, y>> : y \in Atoms }
        \cup { <<1, BinNode(o, E, E)>> : o \in {"eq", "and", "add"} }
        \cup { <<1, Un("not", E)>>, <<1, Call(Id0("concat"), <<E, E>>)>>, <<1, Lst(<<E, one>>)>>,
